@@ -372,6 +372,25 @@ def run(tier="quick", seed=0, jobs=16):
                 sig = "random:" + _fg_signature(d, exp, got)
                 if sig not in fg_bad:
                     fg_bad[sig] = {"kernel": "fg_id_numpy", "inputs": {k: v.tolist() for k, v in dd.items()}, "got": sorted(map(sorted, got)), "expected": sorted(map(sorted, exp)), "row_order": list(perm), "n": n}
+    # boundary ages (the enumeration above uses 40 / 22 / 8): parent + co-resident child aged 23..27, childless or with an
+    # own child, both p_id labellings, all row orders -- witnesses for the clause "children under 25" / "childless"
+    n_age = 0
+    for age in (range(23, 28) if fg_binds else ()):
+        for with_grandchild in (False, True):
+            for ids in ((0, 1, 2), (7, 3, 5)):
+                n = 3 if with_grandchild else 2
+                d = {"p_id": numpy.array(ids[:n]), "hh_id": numpy.array([4] * n), "alter": numpy.array([50, age, 1][:n]),
+                     "p_id_einstandspartner": numpy.array([-1] * n), "p_id_elternteil_1": numpy.array([-1, ids[0], ids[1]][:n]), "p_id_elternteil_2": numpy.array([-1] * n)}
+                exp = gs.expected_fg(d["p_id"], d["hh_id"], d["alter"], d["p_id_einstandspartner"], d["p_id_elternteil_1"], d["p_id_elternteil_2"])
+                for perm in itertools.permutations(range(n)):
+                    dd = gs.permute(d, perm)
+                    ids_ = g_.fg_id_numpy(dd["p_id"], dd["hh_id"], dd["alter"], dd["p_id_einstandspartner"], dd["p_id_elternteil_1"], dd["p_id_elternteil_2"])
+                    n_age += 1
+                    got = gs.perm_partition(gs.partition_of(ids_), perm)
+                    if got != exp:
+                        sig = f"boundary-age:{age}:{'with' if with_grandchild else 'no'}-own-child"
+                        fg_bad.setdefault(sig, {"kernel": "fg_id_numpy", "inputs": {k: v.tolist() for k, v in dd.items()}, "got": sorted(map(sorted, got)), "expected": sorted(map(sorted, exp)), "row_order": list(perm), "n": n})
+    rep.bounded["fg_id_numpy_boundary_ages"] = {"evaluations": n_age, "distinct_nontrivial": 10 if n_age else 0, "rule": "parent (50) + co-resident child aged 23..27, childless or with an own child, two labellings, all row orders; distinct = (age, own child)"}
     if stage_skipped:
         rep.assumptions.extend(stage_skipped)
         rep.bounded["fg_id_numpy_stage_contracts_not_checked"] = {"evaluations": 0, "distinct_nontrivial": 0, "rule": "; ".join(stage_skipped)}
